@@ -3,6 +3,7 @@ mod algs;
 mod api;
 mod misc;
 mod text;
+#[cfg(feature = "unit")]
 mod unit;
 
 use crate::Ctx;
@@ -26,7 +27,13 @@ pub fn run(suite: &str, ctx: &mut Ctx) {
         "identify" => text::suite_identify(ctx),
         "determinism" => text::suite_determinism(ctx),
         "api" => api::suite_api(ctx),
+        #[cfg(feature = "unit")]
         "umyers" | "ulcs" | "uunique" | "ucompact" | "uclose" | "uinline" => unit::suite_unit(ctx, suite),
+        #[cfg(not(feature = "unit"))]
+        "umyers" | "ulcs" | "uunique" | "ucompact" | "uclose" | "uinline" => {
+            eprintln!("harness: built without the unit suites");
+            std::process::exit(5)
+        }
         _ => panic!("unknown suite {}", suite),
     }
 }
@@ -37,6 +44,7 @@ pub fn replay(line: &str) {
     match head {
         "diff" | "capture" | "script" => algs::replay(line),
         "group" | "changes" | "allchanges" | "ratio" => misc::replay(line),
+        #[cfg(feature = "unit")]
         "usnake" | "utable" | "ucpl" | "ucsl" | "uunique" | "ucleanup" | "ushift" | "uupper" | "uquick" | "uorig" | "upush" => unit::replay(line),
         "tok" | "ws" | "text" | "udiff" | "inline" | "remap" | "close" | "identify" => text::replay(line),
         _ => println!("unknown request kind {}", head),
